@@ -419,7 +419,9 @@ nni_msgq_resize(nni_msgq *mq, int cap)
 	nni_free(oldq, sizeof(nni_msg *) * oldalloc);
 
 out:
-	// Wake everyone up -- we changed everything.
+	// There may be room now for writers that were blocked on a full
+	// queue; serve them, and wake everyone up -- we changed everything.
+	nni_msgq_run_putq(mq);
 	nni_msgq_run_notify(mq);
 	nni_mtx_unlock(&mq->mq_lock);
 	return (0);
